@@ -108,6 +108,12 @@ func (P *Prog) specTerminationVCs(sf *SpecFunc) ([]*VC, error) {
 			env.bound[b.Name] = Val{T: Term{n, s}, GoT: t}
 		}
 		var body strings.Builder
+		// string parameters are Go strings: the global length bound holds for them
+		for i, b := range sf.Params {
+			if bt, ok := si.paramT[i].Underlying().(*types.Basic); ok && bt.Info()&types.IsString != 0 {
+				body.WriteString("(assert " + P.sorts.typeAssume(Term{"c_" + b.Name, "Str"}, si.paramT[i]).S + ")\n")
+			}
+		}
 		for _, c := range rc.conds {
 			t, err := env.elabBool(c)
 			if err != nil {
